@@ -233,6 +233,23 @@ func runSelection(t *testing.T, tape *kernel.Tape) *kernel.Result {
 		})}
 	if opClient {
 		op.Client = &http.Client{Transport: mkTransport("operation")}
+		if k := tape.Choose(3, "operation-client-kind"); k > 0 {
+			// a per-operation client that only carries settings (none, or a timeout that never fires here) and leaves the
+			// transport to net/http's default one, which is the simulator's for the length of this run
+			env.Fault("operation-client-without-own-transport")
+			op.Client = &http.Client{}
+			if k == 2 {
+				op.Client.Timeout = time.Hour
+			}
+			saved := http.DefaultTransport
+			http.DefaultTransport = mkTransport("operation")
+			defer func() { http.DefaultTransport = saved }()
+		}
+	}
+	if tape.Bool(5, "debug-mode") {
+		env.Fault("debug-mode")
+		rt.Debug = true
+		rt.SetLogger(quietLogger{})
 	}
 	if opCtx {
 		op.Context = context.WithValue(context.Background(), ctxKey("who"), "operation")
@@ -486,7 +503,7 @@ func runConcurrent(t *testing.T, tape *kernel.Tape) *kernel.Result {
 		rt := mkRuntime(nil)
 		est += kernel.CountYields(func() { call(rt, i, &solo[i]) })
 	}
-	raceLog.Drain() // nothing of the solo pass is attributed to the schedule
+	raceLog.Drain()                                       // nothing of the solo pass is attributed to the schedule
 	copy(offeredSchemes, []string{"http", "ws", "https"}) // as handed over by the application, whatever the solo pass did to it
 	// concurrent pass on ONE fresh Runtime
 	conc := make([]callResult, n)
@@ -558,3 +575,8 @@ func trim(s string, n int) string {
 }
 
 var _ = mime.ParseMediaType
+
+type quietLogger struct{}
+
+func (quietLogger) Printf(string, ...interface{}) {}
+func (quietLogger) Debugf(string, ...interface{}) {}
